@@ -369,6 +369,9 @@ pub fn table_pair(t: &Table, spec: &TableSpec, ia: usize, ib: usize, ft: Ft, wan
     edges.extend(b.edges.iter().cloned());
     let wit = witnesses(&edges, tol);
     let exact_family = spec.kind != "P";
+    // self-crossing operands are in the domain of the region clause of C01 only
+    let valid = a.kind != Kind::Bowtie && b.kind != Kind::Bowtie;
+    let want = &Want { c01: want.c01, c02: want.c02 && valid, c03: want.c03, c04: want.c04 && valid, c05: want.c05 && valid };
     let mut cl: Vec<String> = vec![];
     let mut results: Vec<Option<MP>> = vec![];
     let n = edges.len() as u64;
